@@ -14,14 +14,14 @@ Qed.
 Lemma spec_fans_app n a b : spec_fans_of n (a ++ b) = spec_fans_of n a ++ spec_fans_of n b.
 Proof. unfold spec_fans_of. apply flat_map_app. Qed.
 
-(* one nesting only (all fan files direct, or all below device/): everything listed is reported *)
-Theorem fans_tree_values direct nested :
+(* the code before commit 1b69de5, one nesting only (all fan files direct, or all below device/): complete *)
+Theorem fans_legacy_tree_values direct nested :
   forallb kfanchip_ok direct = true -> forallb kfanchip_ok nested = true ->
   fan_entries direct = [] \/ fan_entries nested = [] ->
-  exists d, sensors_fans_tree true (fan_entries direct) (fan_entries nested) = Val d /\
+  exists d, sensors_fans_legacy_tree true (fan_entries direct) (fan_entries nested) = Val d /\
     forall n, dict_get n d = match spec_fans_of n (direct ++ nested) with [] => None | l => Some l end.
 Proof.
-  intros Hd Hn Hx. unfold sensors_fans_tree, fan_basenames.
+  intros Hd Hn Hx. unfold sensors_fans_legacy_tree, fan_basenames_legacy.
   destruct (fan_entries direct) as [|e es] eqn:E.
   - destruct (fans_values true nested Hn (or_introl eq_refl)) as [d [H1 H2]].
     exists d. split; [exact H1|]. intros n. rewrite spec_fans_app, (no_entries_no_fans n direct E). apply H2.
@@ -30,18 +30,21 @@ Proof.
     exists d. split; [exact H1|]. intros n. rewrite spec_fans_app, (no_entries_no_fans n nested Hx), app_nil_r. apply H2.
 Qed.
 
-(* both nestings present: the fans below device/ are not reported *)
+(* ... but with both nestings present the fans below device/ were not reported; the code as it is reports them *)
 Theorem fans_mixed_nesting_refuted :
-  exists direct nested d, forallb kfanchip_ok direct = true /\ forallb kfanchip_ok nested = true /\
-    sensors_fans_tree true (fan_entries direct) (fan_entries nested) = Val d /\
+  exists direct nested d d', forallb kfanchip_ok direct = true /\ forallb kfanchip_ok nested = true /\
+    sensors_fans_legacy_tree true (fan_entries direct) (fan_entries nested) = Val d /\
     dict_get (bs "nct6775") d = None /\
-    spec_fans_of (bs "nct6775") (direct ++ nested) = [{| fr_label := bs "CPU Fan"; fr_cur := 1200 |}].
+    spec_fans_of (bs "nct6775") (direct ++ nested) = [{| fr_label := bs "CPU Fan"; fr_cur := 1200 |}] /\
+    sensors_fans true (fan_entries (direct ++ nested)) = Val d' /\
+    dict_get (bs "nct6775") d' = Some [{| fr_label := bs "CPU Fan"; fr_cur := 1200 |}].
 Proof.
   exists [{| kfc_name := Present (bs "thinkpad");
              kfc_fans := [{| kn_input := Present (KN false (bs "3500")); kn_label := Absent; kn_other := false |}] |}].
   exists [{| kfc_name := Present (bs "nct6775");
              kfc_fans := [{| kn_input := Present (KN false (bs "1200")); kn_label := Present (bs "CPU Fan"); kn_other := false |}] |}].
-  eexists. split; [reflexivity|]. split; [reflexivity|]. split; [vm_compute; reflexivity|]. split; reflexivity.
+  eexists. eexists. split; [reflexivity|]. split; [reflexivity|]. split; [vm_compute; reflexivity|].
+  split; [reflexivity|]. split; [reflexivity|]. split; [vm_compute; reflexivity|]. reflexivity.
 Qed.
 
 (* ------------------------------------------------------------ temperatures: coretemp platform files *)
@@ -66,7 +69,19 @@ Proof.
   apply repeat_spec in He. now subst.
 Qed.
 
-(* as coded: the appended coretemp names never contribute a reading *)
+(* sensors found only below /sys/devices/platform/coretemp.* are entries like any other: every layout *)
+Theorem temps_with_platform chips plat zones fahr :
+  forallb kchip_ok chips = true -> forallb kchip_ok plat = true ->
+  hwmon_entries chips ++ hwmon_entries plat <> [] ->
+  exists d, sensors_temperatures (hwmon_entries chips ++ hwmon_entries plat) zones fahr = Val d /\
+    forall n, dict_get n d = match spec_temps_of fahr n (chips ++ plat) with [] => None | l => Some l end.
+Proof.
+  intros H1 H2 Hne. assert (E : hwmon_entries (chips ++ plat) = hwmon_entries chips ++ hwmon_entries plat)
+    by (unfold hwmon_entries; apply flat_map_app).
+  rewrite <- E in *. apply temps_values; [|exact Hne]. rewrite forallb_app. now rewrite H1, H2.
+Qed.
+
+(* the code before commit 64999d5: the appended FILE names never contributed a reading *)
 Theorem coretemp_ignored chips plat zones fahr : hwmon_entries chips <> [] ->
   sensors_temperatures (hwmon_entries chips ++ coretemp_names plat) zones fahr
   = sensors_temperatures (hwmon_entries chips) zones fahr.
@@ -78,8 +93,8 @@ Proof.
   now rewrite temps_loop_absent by apply coretemp_all_absent.
 Qed.
 
-(* a readable coretemp sensor that exists only below /sys/devices/platform is not reported, and its
-   files even switch the thermal-zone fallback off *)
+(* the code before commit 64999d5: a readable coretemp sensor that exists only below /sys/devices/platform was not
+   reported, and its files even switched the thermal-zone fallback off *)
 Theorem coretemp_platform_refuted :
   exists plat zones, forallb kchip_ok plat = true /\ forallb kzone_ok zones = true /\
     sensors_temperatures (hwmon_entries [] ++ coretemp_names plat) (map zone_entry zones) false = Val [] /\
